@@ -10,6 +10,7 @@ package config
 //@ func Merge returns (res, err)
 //@   props C08 C03 C04
 //@   frame @C08,C03
+//@   bounded TestVerifBoundedMerge
 //@   ensures @C08 err == nil ==> res != nil
 //@   ghostret INIT St = entry(1, mkst(seq(certExtsHandled), seq(certExtsOverridden), seq(newExt)))
 //@   ensures @C08 vlen(sH(INIT)) == 0 && vlen(sO(INIT)) == 0 && vlen(sOut(INIT)) == 0
